@@ -1,9 +1,9 @@
 CONSTANTS
-  Keys = {1, 2, 3}
-  MaxTime = 3
+  Keys = {1, 2, 3, 4, 5}
+  MaxTime = 1
   Cap0 = 0
   Faults = FALSE
-  CapMode = "fixed"
+  CapMode = "asCoded"
   GetMode = "get"
   Emit = FALSE
 INIT Init
